@@ -171,13 +171,21 @@ _register_emit()
 # --------------------------------------------------------------------------------------------------
 # ToArgs / FromArgs on abstract views
 
+KEYF = z3.Function("constant_key", z3.IntSort(), z3.IntSort())
+
+
+def keyfn(x):
+    """`_hash_fn`: an uninterpreted function of the value (two values may share a key: equal constants, all NaNs)"""
+    return SymInt(KEYF(zint(x)))
+
+
 def tables_ns():
     return cached("ToArgs/FromArgs", lambda: rewrite.load(B, ["ToArgs", "FromArgs"], hooks={"len": plen}, tag="ToArgs,FromArgs"))
 
 
 def _fresh_toargs(ctx, name):
-    """ToArgs over abstract views.  Table entries are modelled by their *key* (what `_hash_fn` returns): two entries with the
-    same key are interchangeable for re-encoding (equal constants / all NaNs), so `_hash_fn` is the identity here."""
+    """ToArgs over abstract views.  Table entries are opaque value ids; `_hash_fn` is an uninterpreted function KEY of the value, so
+    distinct entries may share a key (equal constants, all NaNs)."""
     ns = tables_ns()
     table = SymArrSeq.fresh(name + "_table")
     M = SymMap.fresh(name + "_M")
@@ -188,7 +196,7 @@ def _fresh_toargs(ctx, name):
     ctx.input(name + "_n_found", SymInt(M.size))
     ctx.input(name + "_first_index_of_key", F)
     try:
-        t = ns["ToArgs"](table, M, lambda x: x, F)
+        t = ns["ToArgs"](table, M, keyfn, F)
     except TypeError as e:
         raise rewrite.BindingError("ToArgs no longer takes (_args, _index_to_order, _hash_fn, _arg_to_first_index): %s" % e)
     return t, table, M, F
@@ -205,11 +213,12 @@ def h_found_index(ctx, cfg):
     dom0, val0, size0 = M.dom, M.val, M.size
     Fd0, Fv0 = F.dom, F.val
     value, override = t.found_index(idx)
-    key = z3.Select(table.arr, idx.z)
+    entry = z3.Select(table.arr, idx.z)
+    key = KEYF(entry)
     rank = z3.If(z3.Select(dom0, idx.z), z3.Select(val0, idx.z), size0)
     first = z3.If(z3.Select(Fd0, key), z3.Select(Fv0, key), idx.z)
     j = z3.Int("j")
-    ctx.prove("post.value_is_table_entry", Z(value) == key)
+    ctx.prove("post.value_is_table_entry", Z(value) == entry)
     ctx.prove("post.recorded_order_is_first_use_rank", z3.And(z3.Select(M.dom, idx.z), z3.Select(M.val, idx.z) == rank))
     ctx.prove("post.frame_other_keys_unchanged",
               z3.ForAll([j], z3.Implies(j != idx.z, z3.And(z3.Select(M.dom, j) == z3.Select(dom0, j), z3.Select(M.val, j) == z3.Select(val0, j)))))
@@ -236,7 +245,7 @@ def h_found_index_canary(ctx, cfg):
 
 def _rel(table, M, F, I, K):
     """Simulation relation between the decoder's maps (M: index -> rank, F: key -> first index found) and the encoder's
-    (I: index -> value key, K: key -> index)."""
+    (I: index -> value, K: key -> index); keys are KEY(value)."""
     j, k = z3.Ints("rj rk")
     return z3.And(
         M.size == I.size,
@@ -244,8 +253,8 @@ def _rel(table, M, F, I, K):
         z3.ForAll([j], z3.Implies(z3.Select(M.dom, j), z3.And(0 <= j, j < table.length, z3.Select(I.val, j) == z3.Select(table.arr, j)))),
         z3.ForAll([k], z3.Select(K.dom, k) == z3.Select(F.dom, k)),
         z3.ForAll([k], z3.Implies(z3.Select(F.dom, k), z3.Select(K.val, k) == z3.Select(F.val, k))),
-        z3.ForAll([k], z3.Implies(z3.Select(F.dom, k), z3.And(z3.Select(M.dom, z3.Select(F.val, k)), z3.Select(table.arr, z3.Select(F.val, k)) == k))),
-        z3.ForAll([j], z3.Implies(z3.Select(M.dom, j), z3.Select(F.dom, z3.Select(table.arr, j)))))
+        z3.ForAll([k], z3.Implies(z3.Select(F.dom, k), z3.And(z3.Select(M.dom, z3.Select(F.val, k)), KEYF(z3.Select(table.arr, z3.Select(F.val, k))) == k))),
+        z3.ForAll([j], z3.Implies(z3.Select(M.dom, j), z3.Select(F.dom, KEYF(z3.Select(table.arr, j))))))
 
 
 def _sim_setup(ctx):
@@ -272,9 +281,9 @@ def _sim_setup(ctx):
                "key-duplicate entries allowed (two NaN constants, unmerged equal tuples on 3.7)")
 def h_sim_step(ctx, cfg):
     ns, table, M, F, I, K, idx = _sim_setup(ctx)
-    t = ns["ToArgs"](table, M, lambda x: x, F)
+    t = ns["ToArgs"](table, M, keyfn, F)
     v, ov = t.found_index(idx)
-    f = ns["FromArgs"](_i_to_arg=I, _arg_to_i=K, _hash_fn=lambda x: x)
+    f = ns["FromArgs"](_i_to_arg=I, _arg_to_i=K, _hash_fn=keyfn)
     got = f.add(v, ov)
     ctx.prove("step.encoder_index_equals_decoder_index", Z(got) == idx.z)
     ctx.prove("step.relation_preserved", _rel(table, M, F, I, K))
@@ -287,7 +296,7 @@ def h_sim_step(ctx, cfg):
 def h_sim_override_justified(ctx, cfg):
     ns, table, M, F, I, K, idx = _sim_setup(ctx)
     dom0, val0, size0 = M.dom, M.val, M.size
-    t = ns["ToArgs"](table, M, lambda x: x, F)
+    t = ns["ToArgs"](table, M, keyfn, F)
     v, ov = t.found_index(idx)
     if ov is None:
         return
@@ -295,7 +304,7 @@ def h_sim_override_justified(ctx, cfg):
     if not ctx.decide(rank == idx.z):
         ctx.reached("override.position_differs_from_rank")
         return
-    f = ns["FromArgs"](_i_to_arg=I, _arg_to_i=K, _hash_fn=lambda x: x)
+    f = ns["FromArgs"](_i_to_arg=I, _arg_to_i=K, _hash_fn=keyfn)
     got = f.add(v, None)
     ctx.prove("override.at_rank_is_justified: encoder without it returns another index", Z(got) != idx.z)
 
